@@ -348,6 +348,8 @@ class Verifier:
         if L is None:
             return None
         sp = B.iter_space(eng, it, st)
+        if sp.kind == "index" and getattr(sp, "seq", None) is not None:
+            return self._loop_index(L, ordinal[0], eng, node, sp, st)
         if sp.kind != "keys":
             return None
         return self._loop(L, ordinal[0], eng, node, sp, st)
@@ -371,6 +373,44 @@ class Verifier:
         for name in sorted(assigned):
             if name in st.env:
                 st.env[name] = self.make(B.type_of_value(st.env[name]), st, name)
+
+    def _loop_index(self, L, ordinal, eng, node, sp, st):
+        """`for x in <sequence of unknown length>` with a sidecar invariant inv(c, env, i) over the number i
+        of elements already processed (0 <= i <= len)."""
+        n = sp.n
+        entry = Ctx(eng, st.fork())
+        for f in L.lemmas(Ctx(eng, st, old=entry), Args(st.env), z3.IntVal(0), None):
+            st.assume(f)
+        for nm, f in self._loop_inv(L, st, entry, z3.IntVal(0)):
+            self.add("loop-init", "%d:%s" % (ordinal, nm), st, f)
+        s1 = st.fork()
+        s1.env = dict(s1.env)
+        self.havoc(s1, L.modifies)
+        self._rehavoc_locals(L, node, s1)
+        i = fresh("idx!w", z3.IntSort())
+        s1.assume(z3.And(i >= 0, i < n))
+        for nm, f in self._loop_inv(L, s1, entry, i):
+            s1.assume(f)
+        B.bind_target(eng, node.target, sp.fn(i), s1.env)
+        for f in L.lemmas(Ctx(eng, s1, old=entry), Args(s1.env), i, None):
+            s1.assume(f)
+        for kind, payload, s2 in eng.exec_block(node.body, s1):
+            if kind in ("next", "continue"):
+                for nm, f in self._loop_inv(L, s2, entry, i + 1):
+                    self.add("loop-step", "%d:%s" % (ordinal, nm), s2, f)
+            elif kind == "break":
+                yield "next", None, s2
+            else:
+                yield kind, payload, s2
+        s3 = st.fork()
+        s3.env = dict(s3.env)
+        self.havoc(s3, L.modifies)
+        self._rehavoc_locals(L, node, s3)
+        for nm, f in self._loop_inv(L, s3, entry, n):
+            s3.assume(f)
+        for f in L.lemmas(Ctx(eng, s3, old=entry), Args(s3.env), n, None):
+            s3.assume(f)
+        yield "next", None, s3
 
     def _loop(self, L, ordinal, eng, node, sp, st):
         ks = sort_of(sp.kt)
